@@ -28,7 +28,28 @@ pub const URLS: &[Option<&str>] = &[
     Some("host=h1 user=u1 dbname=''"),
     Some("user=u1 dbname=db1"),
     Some("this is not a url"),
+    // thorough tier only (see URLS_QUICK)
+    Some("postgresql://u1:p%40ss%2Fw@[::1]:5440/db1"),
+    Some("postgresql://u1:@h1/db1?sslmode=disable"),
+    Some("postgresql://u1@h1,h2,h3/db1?hostaddr=10.0.0.1,10.0.0.2,10.0.0.3&port=1,2,3"),
+    Some("postgresql://u1@h1/db1?target_session_attrs=any&channel_binding=disable&load_balance_hosts=disable&keepalives=1"),
+    Some("postgres://u1@h1/"),
+    Some("postgresql://u1@h1/db1?connect_timeout=notanumber"),
+    Some("user='u 1' password='p\\'w' dbname='d b' host=h1 port=5441 application_name='a b'"),
 ];
+pub const URLS_QUICK: usize = 13;
+
+static THOROUGH: std::sync::atomic::AtomicBool = std::sync::atomic::AtomicBool::new(false);
+pub fn set_thorough(t: bool) {
+    THOROUGH.store(t, std::sync::atomic::Ordering::Relaxed);
+}
+fn n_urls() -> usize {
+    if THOROUGH.load(std::sync::atomic::Ordering::Relaxed) {
+        URLS.len()
+    } else {
+        URLS_QUICK
+    }
+}
 
 fn bad(v: &mut Vec<Violation>, key: &str, msg: String) {
     if !v.iter().any(|x| x.key == key) {
@@ -255,22 +276,22 @@ fn env_user() -> Option<String> {
 pub fn sweep_scalars() -> Outcome {
     let mut viol = Vec::new();
     let mut cfg = Config::new();
-    cfg.url = URLS[choose_free(URLS.len())].map(|s| s.to_string());
-    if choose_free(2) == 1 {
-        cfg.user = Some("u9".into());
-    }
-    if choose_free(2) == 1 {
-        cfg.password = Some("pw9".into());
-    }
-    if choose_free(2) == 1 {
-        cfg.dbname = Some("db9".into());
-    }
-    if choose_free(2) == 1 {
-        cfg.options = Some("-c x=9".into());
-    }
-    if choose_free(2) == 1 {
-        cfg.application_name = Some("app9".into());
-    }
+    cfg.url = URLS[choose_free(n_urls())].map(|s| s.to_string());
+    let th = THOROUGH.load(std::sync::atomic::Ordering::Relaxed);
+    let pick = |vals: &[&str]| -> Option<String> {
+        let n = if th { vals.len() + 1 } else { 2 };
+        let k = choose_free(n);
+        if k == 0 {
+            None
+        } else {
+            Some(vals[k - 1].to_string())
+        }
+    };
+    cfg.user = pick(&["u9", "üser 9"]);
+    cfg.password = pick(&["pw9", ""]);
+    cfg.dbname = pick(&["db9", "dätabase"]);
+    cfg.options = pick(&["-c x=9", ""]);
+    cfg.application_name = pick(&["app9", ""]);
     cfg.ssl_mode = [None, Some(SslMode::Disable), Some(SslMode::Prefer), Some(SslMode::Require)][choose_free(4)];
     if choose_free(2) == 1 {
         cfg.connect_timeout = Some(Duration::from_secs(9));
@@ -293,7 +314,7 @@ pub fn sweep_scalars() -> Outcome {
 pub fn sweep_lists() -> Outcome {
     let mut viol = Vec::new();
     let mut cfg = Config::new();
-    cfg.url = URLS[choose_free(URLS.len())].map(|s| s.to_string());
+    cfg.url = URLS[choose_free(n_urls())].map(|s| s.to_string());
     let strs = [None, Some(""), Some("v9"), Some("ü9")];
     cfg.user = strs[choose_free(4)].map(|s| s.to_string());
     cfg.dbname = strs[choose_free(4)].map(|s| s.to_string());
